@@ -213,29 +213,48 @@ def O_pkg(pkg, design=None, top=None):
     walk(top, (), 0)
     tm = mods[top]
     tsigs = {s.name: s.width for s in tm.signals}
-    expected = top_port_names(design) if design is not None else {}
+    rename = top_port_renaming(design, [p.signal for p in tm.ports]) if design is not None else {}
     for p in tm.ports:
         if p.signal not in tsigs:
             raise Malformed(f"port {p.signal} names no signal")
-        nm = p.signal
-        if expected and nm not in expected:
-            stripped = nm.rstrip("_")
-            if stripped in expected and stripped not in tsigs:
-                nm = stripped
         for k in range(tsigs[p.signal]):
             n = ((), p.signal, k)
             uf.find(n)
             keep.add(n)
-    rename = {}
-    if expected:
-        for p in tm.ports:
-            if p.signal not in expected and p.signal.rstrip("_") in expected:
-                rename[p.signal] = p.signal.rstrip("_")
     classes = {}
     for n in keep:
         nn = n if not (n[0] == () and n[1] in rename) else ((), rename[n[1]], n[2])
         classes.setdefault(uf.find(n), set()).add(nn)
     return devices, frozenset(frozenset(c) for c in classes.values())
+
+
+def top_port_renaming(design, port_names):
+    """Map the package's top-level port names to the labels refsem uses: a declared scalar port keeps its name; a port
+    whose name (minus collision-avoidance underscores) is the documented flattened name of a bundle-port member is
+    labelled `port.member.path`."""
+    from .refsem import top_port_labels, scalar_top_ports
+
+    labels = top_port_labels(design)
+    scalars = scalar_top_ports(design)
+    mod = design["modules"][design["top"]]
+    flat = {}
+    from .refsem import bundle_leaves
+    for d in mod["decls"]:
+        if d[0] == "bport":
+            for p, w in bundle_leaves(design, d[2]):
+                flat[d[1] + "_" + "_".join(p)] = d[1] + "." + ".".join(p)
+    out = {}
+    used = set()
+    for nm in port_names:
+        if nm in scalars:
+            continue
+        base = nm.rstrip("_")
+        for cand in (nm, base):
+            if cand in flat and flat[cand] not in used:
+                out[nm] = flat[cand]
+                used.add(flat[cand])
+                break
+    return out
 
 
 def canonv(v):
@@ -361,8 +380,10 @@ def O_spice(text, design, top_subckt=None):
 
     walk(top_subckt, ())
     header = subs[top_subckt][0]
-    exp = top_port_names(design)
-    for name, w in exp.items():
+    from .refsem import top_port_labels
+
+    exp_l = top_port_labels(design)
+    for name, (label, w) in exp_l.items():
         for k in range(w):
             cands = [name] if w == 1 else [f"{name}_{k}"]
             hit = [c for c in cands if c in header]
@@ -371,7 +392,7 @@ def O_spice(text, design, top_subckt=None):
                 hit = [hn for hn in header if (hn.rstrip("_") == name if w == 1 else re.fullmatch(re.escape(name) + r"_*_" + str(k), hn))]
             if not hit:
                 raise Malformed(f"top port bit {name}[{k}] not in header {header}")
-            t = ((), name, k)
+            t = ((), label, k)
             keep.add(t)
             uf.union(t, ((), "net", hit[0]))
     classes = {}
